@@ -58,7 +58,7 @@ def locate(path, selector):
     parts = [p.strip() for p in selector.split("::")]
     # re-join impl headers that themselves contain `::` : selector form is `impl H :: fn N`, split at
     # the LAST ` :: fn ` occurrence instead
-    m = re.match(r"^(impl\s.+?|trait\s+\w+)\s+::\s+fn\s+(\w+)$", selector.strip())
+    m = re.match(r"^(impl\b.+?|trait\s+\w+)\s+::\s+fn\s+(\w+)$", selector.strip())
     if m:
         outer, name = m.group(1), m.group(2)
         if outer.startswith("impl"):
@@ -77,7 +77,7 @@ def locate(path, selector):
         if len(found) != 1:
             raise ExtractError("anchor lost: %d matches for `%s` in %s" % (len(found), selector, path))
         return sf, found[0]
-    m = re.match(r"^impl\s.+$", selector.strip())
+    m = re.match(r"^impl\b.+$", selector.strip())
     if m:
         found = sf.find_impls(selector.strip())
         if len(found) != 1:
@@ -116,11 +116,78 @@ LOG_MACROS = ("warn", "error", "info", "debug", "trace")
 def apply_edits(text, edits):
     """edits: list of (start, end, replacement) non-overlapping"""
     out = []; pos = 0
-    for s, e, r in sorted(edits):
+    # stable: edits at the same position keep the order in which they were requested
+    for s, e, r in sorted(edits, key=lambda x: (x[0], x[1])):
         if s < pos: raise ExtractError("overlapping rewrite")
         out.append(text[pos:s]); out.append(r); pos = e
     out.append(text[pos:])
     return "".join(out)
+
+def rule_r12(text, kind, in_trait, rules):
+    """normalise visibility to `pub` (a single-file crate has one module, so visibility has no effect
+    on behaviour; Verus treats a type with a private field as opaque in contracts of pub functions):
+    `pub(crate)`/`pub(super)` -> `pub`; private struct fields, types and inherent/free fns get `pub`.
+    Methods of traits / trait impls never carry visibility and are left alone."""
+    toks, st = _sig_with_index(text)
+    edits = []
+    def vis_at(i):
+        """if st[i] starts a visibility, return (start, end) offsets, else None"""
+        t = st[i]
+        if t.kind == "ident" and t.text == "pub":
+            end = t.end
+            if i + 1 < len(st) and st[i + 1].text == "(" and st[i + 2].kind == "ident" and st[i + 2].text in ("crate", "super", "self", "in"):
+                end = st[match_close(st, i + 1)].end
+            return (t.start, end)
+        return None
+    # item-level visibility
+    if not in_trait:
+        v = vis_at(0)
+        if v is None:
+            edits.append((st[0].start, st[0].start, "pub "))
+        elif text[v[0]:v[1]] != "pub":
+            edits.append((v[0], v[1], "pub"))
+    if kind == "struct":
+        # find the field list: first `{` or `(` at depth 0 after the name (skipping generics)
+        j = 0; ang = 0
+        while j < len(st):
+            x = st[j]
+            if x.kind == "punct":
+                if x.text == "<": ang += 1
+                elif x.text == ">": ang -= 1
+                elif x.text == ">>": ang -= 2
+                elif x.text in ("{", "(") and ang == 0: break
+                elif x.text == ";" and ang == 0: j = None; break
+            j += 1
+        if j is not None and j < len(st):
+            c = match_close(st, j)
+            k = j + 1
+            at_field = True
+            d = 0; ang = 0
+            while k < c:
+                x = st[k]
+                if at_field:
+                    # skip attributes
+                    while st[k].text == "#" and st[k + 1].text == "[":
+                        k = match_close(st, k + 1) + 1
+                    if k >= c: break
+                    v = vis_at(k)
+                    if v is None:
+                        edits.append((st[k].start, st[k].start, "pub "))
+                    elif text[v[0]:v[1]] != "pub":
+                        edits.append((v[0], v[1], "pub"))
+                    at_field = False
+                    continue
+                if x.kind == "punct":
+                    if x.text in OPEN: d += 1
+                    elif x.text in CLOSE: d -= 1
+                    elif x.text == "<": ang += 1
+                    elif x.text == ">": ang -= 1
+                    elif x.text == ">>": ang -= 2
+                    elif x.text == "," and d == 0 and ang == 0:
+                        at_field = True
+                k += 1
+    if edits: rules.append("R12")
+    return apply_edits(text, edits) if edits else text
 
 def rule_r8(text, rules):
     """drop log-macro statements"""
@@ -434,8 +501,9 @@ def extract_item(path, selector, opts, directives, findings_open):
         if "lift" in opts:
             if "Self::" in text:
                 text = text.replace("Self::", ""); rules.append("R6")
-    if "nopub" in opts:
-        text = re.sub(r"^pub(\([a-z]+\))?\s+", "", text)
+    in_trait = bool(re.match(r"^(impl\b.*\bfor\b.+?|trait\s+\w+)\s+::\s+fn\s+\w+$", selector.strip())) or it.kind == "impl"
+    if it.kind in ("fn", "struct", "enum"):
+        text = rule_r12(text, it.kind, in_trait, rules)
     # drop doc comments inside types (field docs are harmless but `//!` is not)
     if it.kind == "fn":
         text = splice_fn(text, opts, directives, path, selector)
@@ -528,6 +596,7 @@ def generate(spec_path, open_findings=()):
     gen = Generated()
     i = 0
     cond_stack = []  # True = emitting
+    derive_policy = []
     def emitting():
         return all(cond_stack)
     while i < len(lines):
@@ -544,6 +613,34 @@ def generate(spec_path, open_findings=()):
             if d == "endif":
                 cond_stack.pop(); i += 1; continue
             if not emitting():
+                i += 1; continue
+            if d.startswith("include "):
+                inc = os.path.join(os.path.dirname(spec_path), d[8:].strip())
+                if not os.path.exists(inc):
+                    inc = os.path.join(os.path.dirname(os.path.dirname(os.path.abspath(__file__))), "specs", d[8:].strip())
+                lines[i:i + 1] = open(inc).read().split("\n")
+                continue
+            if d.startswith("derive-policy "):
+                # e.g.  //@ derive-policy +Structural DataType FunctionID   |  -Default *
+                ws = d.split()
+                derive_policy.append((ws[1], ws[2:]))
+                i += 1; continue
+            if d.startswith("types "):
+                ws = d.split()
+                path = ws[1]; only = None; exc = []
+                for w in ws[2:]:
+                    if w.startswith("only="): only = w[5:].split(",")
+                    elif w.startswith("except="): exc = w[7:].split(",")
+                sf = source(path)
+                for it in sf.items:
+                    if it.kind not in ("struct", "enum"): continue
+                    if only is not None and it.name not in only: continue
+                    if it.name in exc: continue
+                    dd = {"derive": [pol for pol, names in derive_policy if "*" in names or it.name in names]}
+                    pc = extract_item(path, "%s %s" % (it.kind, it.name), [], dd, open_findings)
+                    gen.pieces.append(pc)
+                    out.append("// ---- extracted: %s :: %s %s  [%s]" % (path, it.kind, it.name, ",".join(sorted(set(pc.rules)))))
+                    out.extend(pc.text.split("\n"))
                 i += 1; continue
             if d.startswith("item "):
                 body = d[5:]
@@ -617,6 +714,11 @@ def generate(spec_path, open_findings=()):
                             else:
                                 buf.append(lines[i])
                     i += 1
+                m_ty = re.match(r"^(struct|enum)\s+(\w+)$", selector)
+                if m_ty:
+                    for pol, names in derive_policy:
+                        if "*" in names or m_ty.group(2) in names:
+                            directives.setdefault("derive", []).append(pol)
                 pc = extract_item(path, selector, opts, directives, open_findings)
                 gen.pieces.append(pc)
                 out.extend(("// ---- extracted: %s :: %s  [%s]" % (path, selector, ",".join(sorted(set(pc.rules))))).split("\n"))
